@@ -132,6 +132,10 @@ ENV_BLOCK = Environment(trim_blocks=True, lstrip_blocks=True)
 ENV_LINE = Environment(trim_blocks=True, lstrip_blocks=True, line_statement_prefix="#", line_comment_prefix="##")
 
 
+NL_ENVS = {nl: (Environment(trim_blocks=True, lstrip_blocks=True, newline_sequence=nl),
+                Environment(trim_blocks=True, lstrip_blocks=True, line_statement_prefix="#", line_comment_prefix="##", newline_sequence=nl)) for nl in ("\r\n", "\r")}
+
+
 def _to_line(l):
     s = l.strip()
     ind = l[: len(l) - len(l.lstrip())]
@@ -160,7 +164,18 @@ def lines_ok(ls: List[int], final_nl: bool) -> bool:
         if a[0] != "ok":
             return True  # unbalanced program
         b = _outcome(lambda: ENV_LINE.from_string(src_l).render())
-        return a == b
+        if a != b:
+            return False
+        # the newline configuration only changes the line breaks: sources written with another line-break form, and
+        # environments producing another newline_sequence, give the same text up to that substitution
+        for nl in ("\r\n", "\r"):
+            eb, el = NL_ENVS[nl]
+            for src, env in ((src_b, eb), (src_l, el)):
+                for srcnl in ("\n", nl):
+                    r = _outcome(lambda: env.from_string(src.replace("\n", srcnl)).render())
+                    if r[0] != "ok" or r[1].replace(nl, "\n") != a[1]:
+                        return False
+        return True
 
 
 def NL():
